@@ -55,9 +55,13 @@ MsDays(n) == n \div MsPerDay
 MsRest(n) == n % MsPerDay
 DtPlus(dt, n) ==
     IF ~IsQ(n) THEN AnyVal
-    ELSE IF n.d # 1 THEN AnyVal                        \* fractional milliseconds: any instant within 1 ms
-    ELSE LET r == AddMs(dt.d, dt.ms, MsDays(n.n), MsRest(n.n)) IN
-         IF r.d < MinDay \/ r.d > MaxDay THEN Null ELSE Dt(r.d, r.ms)
+    ELSE LET whole == n.n \div n.d                     \* whole milliseconds (floor)
+             rem == n.n % n.d                          \* 0 <= rem < d <= 1024
+         IN IF (rem * 1000) % n.d # 0 THEN AnyVal        \* not a whole number of microseconds: the host rounds, any instant within 1 us
+            ELSE LET us == UsOf(dt) + (rem * 1000) \div n.d
+                     ms1 == whole + us \div 1000
+                     r == AddMs(dt.d, dt.ms, MsDays(ms1), MsRest(ms1)) IN
+                 IF r.d < MinDay \/ r.d > MaxDay THEN Null ELSE Dt3(r.d, r.ms, us % 1000)
 
 \* returns a value, or [t |-> "skip"] when the operands leave the exact domain
 BinOp(op, a, b, heap, off) ==
@@ -77,7 +81,8 @@ BinOp(op, a, b, heap, off) ==
     ELSE IF op = "-" THEN
         IF a.t = "num" /\ b.t = "num" THEN SubN(a, b)
         ELSE IF a.t = "dt" /\ b.t = "dt" THEN
-            IF Abs(a.d - b.d) <= 10 THEN IntV((a.d - b.d) * MsPerDay + (a.ms - b.ms)) ELSE AnyFinite
+            \* (the difference is rounded to whole milliseconds: left open when an operand carries microseconds)
+            IF Abs(a.d - b.d) <= 10 /\ UsOf(a) = 0 /\ UsOf(b) = 0 THEN IntV((a.d - b.d) * MsPerDay + (a.ms - b.ms)) ELSE AnyFinite
         ELSE Null
     ELSE IF a.t # "num" \/ b.t # "num" THEN Null
     ELSE IF op = "*" THEN MulN(a, b)
